@@ -1,4 +1,8 @@
 import FormulaicVerif.Proofs.C18Pure
+import FormulaicVerif.Proofs.C18Scope
+import FormulaicVerif.Proofs.C18XWf
+import FormulaicVerif.Gen.SpecState
+import FormulaicVerif.Proofs.C18Edit
 /-! # C18 — Materialization is pure and deterministic across calls, histories and hash seeds
 
 "Building a model matrix never mutates the input data, the formula, or the observable behaviour of
@@ -14,8 +18,18 @@ carries its dictionaries by value and an operation is a pure function of the val
 `P : Params F E` are the numerics (fitted states, null rows, failures, encoder states, rank
 reduction, structure enforcement) — all theorems hold for EVERY choice of them.
 
-In the model data sets and formulas are immutable values; that the real frames and formula objects
-are not mutated is observed by the harness (hashes around every operation), not proved here. -/
+Sections: (1) histories over formula VALUES (`Model/Heap.lean`): refinement to the value semantics,
+inputs unchanged, repetition, independence of the iteration order of the factor set, negative witness
+for the pre-D16 code; (2) rank reduction computed inside the model with the iteration order of every
+plain `set` as a parameter (`Model/HeapScope.lean`): independent of it, total, negative witness for a
+hashed recursion; (3) extended histories with formula OBJECTS, the caller's edits of them and
+state-resetting updates (`Model/HeapX.lean`): refinement, formulas untouched by builds, inputs
+unchanged, fault-then-reuse, non-interference of edits of other objects, consistent aliasing, the
+re-sort by degree; (4) the layout of state the model assumes vs `Gen/SpecState.lean` (regenerated from
+the live package).
+
+In the model data sets are immutable values; that the real frames are not mutated is observed by the
+harness (hashes around every operation), not proved here. -/
 
 namespace FormulaicVerif.Props.C18
 open FormulaicVerif.Model.Heap FormulaicVerif.Spec.Purity FormulaicVerif.Proofs.C18
@@ -125,5 +139,397 @@ example : (evaluateAll P₀ 1 .drop ⟨Dict.empty, fun _ => false, Dict.empty⟩
       (fun s => (s.cache "center(x)", s.cache "z", s.state "center(x)"))
     ∧ (evaluateAll P₀ 1 .drop ⟨Dict.empty, fun _ => false, Dict.empty⟩ ["center(x)", "z"]).toOption.map
       (fun s => s.state "center(x)") = some (some 1) := by decide
+
+/-! ## Rank reduction inside the model: independent of every `set` iteration order
+
+`Model/HeapScope.lean` computes `Params.scopedOf` (which scoped factors a term is encoded with, in
+which order — hence the COLUMN ORDER) by the code of `_get_scoped_terms` / `_simplify_scoped_terms`,
+with the iteration order of the two plain Python `set`s on that path (`factors_diff`, `spanned`) as
+the parameter `σ : SetOrder`.  The engine runs `σ = insertion`. -/
+
+section scope
+open FormulaicVerif.Model.HeapScope FormulaicVerif.Proofs.C18Scope
+open FormulaicVerif.Model (ST osDiff spannedBy simplifyFuel)
+
+/-- C18.3b  For EVERY admissible iteration order of the sets of scoped factors / scoped terms (every
+hash seed), every formula, every assignment of kinds to its factors and both `ensure_full_rank`
+settings, `_get_scoped_terms` yields the same scoped terms in the same order: it computes exactly what
+the insertion-ordered model of C02/C03 computes (so C03's structural-full-rank theorems apply to it). -/
+theorem scoped_terms_refine_c03 (σ : SetOrder) (hσ : σ.Valid) (kind : String → FKind)
+    (origin : Formula) (efr : Bool) :
+    scopedTerms σ kind origin efr
+      = FormulaicVerif.Model.getScopedTerms (cacheOf kind origin.flatten) efr [] (origin.map mterm) :=
+  getScopedTerms_eq σ hσ _ efr _ (List.Perm.refl [])
+
+theorem scoped_terms_hash_seed_independent (σ : SetOrder) (hσ : σ.Valid) (kind : String → FKind)
+    (origin : Formula) (efr : Bool) :
+    scopedTerms σ kind origin efr = scopedTerms .insertion kind origin efr := by
+  rw [scoped_terms_refine_c03 σ hσ, scoped_terms_refine_c03 .insertion ⟨fun _ => .refl _, fun _ => .refl _⟩]
+
+/-- non-vacuity: reversing every set is an admissible order, and on `1 + a:b:c` the four scoped terms
+of EQUAL size two/three come out as the real code emits them: `a-:b, a:c-, b-:c, a-:b-:c-` -/
+example : (SetOrder.mk List.reverse List.reverse).Valid := ⟨List.reverse_perm, List.reverse_perm⟩
+example : (scopedTerms ⟨List.reverse, List.reverse⟩ (fun _ => .categorical true) [[], ["a", "b", "c"]] true).toOption.map
+      (fun r => r.map fun p => p.2.map fun st => st.factors.map fun sf => (sf.expr, sf.reduced))
+    = some [[[]], [[("a", true), ("b", false)], [("a", false), ("c", true)], [("b", true), ("c", false)],
+        [("a", true), ("b", true), ("c", true)]]] := by decide +kernel
+
+/-- C18.3b  The modelled rank reduction never fails (no `KeyError`, and the fuel of the recursion of
+`_simplify_scoped_terms` is always enough): the `[]` fall-backs in `scopedOf` are dead code. -/
+theorem scoped_terms_total (σ : SetOrder) (hσ : σ.Valid) (kind : String → FKind)
+    (origin : Formula) (efr : Bool) : ∃ r, scopedTerms σ kind origin efr = .ok r := by
+  rw [scoped_terms_refine_c03 σ hσ]
+  apply getScopedTerms_ok
+  intro t ht e he
+  obtain ⟨t0, ht0, rfl⟩ := List.mem_map.mp ht
+  by_cases h1 : e = "1"
+  · subst h1; exact cacheOf_get_one kind _
+  · refine cacheOf_get kind _ e ?_ h1
+    unfold mterm at he
+    split at he
+    · simp at he; exact absurd he h1
+    · exact List.mem_flatten.mpr ⟨t0, ht0, he⟩
+
+/-- C18.3b  Hence `Params.scopedOf` as the model computes it — and with it every outcome of every
+history — is the same function for every admissible `σ` ... -/
+theorem scopedOf_hash_seed_independent (σ : SetOrder) (hσ : σ.Valid) (kind : String → Data → FKind) :
+    scopedOf σ kind = scopedOf .insertion kind := by
+  funext t origin efr d
+  unfold scopedOf
+  rw [scoped_terms_hash_seed_independent σ hσ]
+
+/-- ... in particular: a whole `get_model_matrix` call (the store it leaves behind, the records of the
+matrices it returns, their column order) depends neither on the iteration order of the `set`s of
+scoped terms / scoped factors nor on that of `factors: set[Factor]`. -/
+theorem call_hash_seed_independent (σ : SetOrder) (hσ : σ.Valid) (kind : String → Data → FKind)
+    (mode : Mode) (w : World F E) (ss : List (Spec E)) (d : Data) (o1 o2 : List Factor) (h : o1.Perm o2) :
+    (callCore (withScope P σ kind) mode w ss d o1).1 = (callCore (withScope P .insertion kind) mode w ss d o2).1
+    ∧ (callCore (withScope P σ kind) mode w ss d o1).2.toOption
+        = (callCore (withScope P .insertion kind) mode w ss d o2).2.toOption := by
+  have : withScope P σ kind = withScope P .insertion kind := by
+    unfold withScope; rw [scopedOf_hash_seed_independent σ hσ]
+  rw [this]
+  exact call_order_independent _ mode w ss d o1 o2 h
+
+/-- and every history: the outcomes under ANY admissible set order are the value semantics computed
+with insertion order -/
+theorem history_hash_seed_independent (σ : SetOrder) (hσ : σ.Valid) (kind : String → Data → FKind)
+    (h : List Op) :
+    run (withScope P σ kind) .copy World.init h = prun (withScope P .insertion kind) [] h := by
+  have : withScope P σ kind = withScope P .insertion kind := by
+    unfold withScope; rw [scopedOf_hash_seed_independent σ hσ]
+  rw [this]
+  exact history_independent _ h
+
+/-- the span of `a:b:c` next to an intercept (all three categorical): `{a-, b-, c-, a-:b-, a-:c-, b-:c-, a-:b-:c-}` -/
+def spanABC : List ST :=
+  osDiff (spannedBy ((cacheOf (fun _ => .categorical true) ["a", "b", "c"]).drop 1)) [ST.new [] 1]
+
+/-- C18.3b, negative: a variant of `_simplify_scoped_terms` that hands the intermediate result of the
+recursion on as a plain `set` (`simplifyH`: the only difference is one `σ.st`) is NOT independent of
+the iteration order — on the span of the single term `a:b:c` of `1 + a:b:c` two admissible orders give
+the scoped terms (hence the columns) in different orders.  This is why the hash-seed batches must
+contain a term interacting three categorical factors whose lower-order margins do not precede it:
+for `a`, `a:b`, `a*b`, `a*b*c` the scoped terms handed to the recursion never tie in size. -/
+theorem hashed_recursion_is_seed_dependent :
+    ∃ σ : SetOrder, σ.Valid ∧
+      simplifyH σ (simplifyFuel spanABC) spanABC ≠ simplifyH .insertion (simplifyFuel spanABC) spanABC := by
+  refine ⟨⟨id, List.reverse⟩, ⟨fun _ => .refl _, List.reverse_perm⟩, ?_⟩
+  decide +kernel
+
+/-- the code as it is agrees with the insertion-ordered variant on that input, for the reversed order too -/
+example : simplify ⟨List.reverse, List.reverse⟩ (simplifyFuel spanABC) spanABC
+    = simplifyH .insertion (simplifyFuel spanABC) spanABC := by decide +kernel
+
+end scope
+
+/-! ## Extended histories: formula OBJECTS, the caller's edits of them, state-resetting updates
+
+`Model/HeapX.lean` adds to the store the formula objects (`forms`), which object every spec holds
+(`fref`) and the operations `formula` (create one), `edit fid e` / `editOf h e` (the caller uses the
+`MutableSequence` protocol of `SimpleFormula` on a formula object / on `spec.formula`: `insert`,
+`append`, `__setitem__`, `__delitem__` with Python's index conventions and the re-sort by degree) and
+`update(..., transform_state={}, encoder_state={})`; `subset` creates a new formula object and re-sorts
+the picked terms itself.  `xrun P XWorld.init h` runs a history of such operations on the store
+(`xstep` delegates to `Model.Heap.step` and keeps the references); `xprun` (`Spec/PurityX.lean`) is the
+value semantics: spec values + the contents of the formula objects, nothing else.  The engine runs
+`xtrace`/`xprun`; the harness compares, after every operation, outcomes, spec values, dictionary
+identities, formula identities (`is`) and formula contents with the real objects. -/
+
+section extended
+open FormulaicVerif.Model.HeapX FormulaicVerif.Spec.PurityX FormulaicVerif.Proofs.C18X
+
+/-- C18.1x  History independence with formula objects, no hypothesis: in EVERY finite history of
+creating formulas, building, reusing, updating (also with reset state), subsetting AND the caller's
+own edits of formula objects in between, every operation's outcome is the outcome of the value
+semantics: a function of the contents of the formula objects it reads and of the values of the
+specs it names. -/
+theorem x_history_independent (h : List XOp) :
+    xrun P XWorld.init h = xprun P XEnv.init h :=
+  (xrun_sim P h XWorld.init xinv_init).1
+
+/-- C18.1x, per call ("the same call in a fresh world with the same values") -/
+theorem x_call_is_pure (h : List XOp) (op : XOp) :
+    (xstep P (xfinal P XWorld.init h) op).2 = (xpstep P (xpfinal P XEnv.init h) op).2 := by
+  obtain ⟨_, h2, h3⟩ := xrun_sim P h XWorld.init xinv_init
+  rw [(xstep_sim P _ op h3).out, h2]
+  rfl
+
+/-- C18.1x  "Building a model matrix never mutates … the formula": after any history, an operation
+that is not one of the caller's own edits leaves every existing formula object as it is (objects are
+only ever added — by `Formula(...)` and by `subset`). -/
+theorem building_never_touches_formulas (h : List XOp) (op : XOp) (hne : op.isEdit = false) :
+    ∃ nf, (xstep P (xfinal P XWorld.init h) op).1.forms = (xfinal P XWorld.init h).forms ++ nf := by
+  have hi := (xrun_sim P h XWorld.init xinv_init).2.2
+  have he := (xstep_sim P _ op hi).env
+  obtain ⟨nf, hnf⟩ := (xpstep_append P (xabs (xfinal P XWorld.init h)) op hne).1
+  refine ⟨nf, ?_⟩
+  have : (xabs (xstep P (xfinal P XWorld.init h) op).1).forms = (xfinal P XWorld.init h).forms ++ nf := by
+    rw [he, hnf]; rfl
+  exact this
+
+/-- C18.1x  Inputs unchanged, with formula objects: after any history, an operation `op` that is not one
+of the caller's edits changes (a) neither the value of any spec obtained before it (formula,
+configuration, structure, contents of both state dictionaries) nor the formula object it holds, and
+(b) not the outcome of any operation `c` that names only specs and formula objects that existed
+before `op` — builds, reuses on any data set, updates, subsets, even edits. -/
+theorem x_inputs_unchanged (h : List XOp) (op : XOp) (hne : op.isEdit = false) :
+    (∀ i, i < (xfinal P XWorld.init h).base.specs.length →
+        (xabs (xstep P (xfinal P XWorld.init h) op).1).specs[i]? = (xabs (xfinal P XWorld.init h)).specs[i]?)
+    ∧ (∀ i, i < (xfinal P XWorld.init h).fref.length →
+        (xstep P (xfinal P XWorld.init h) op).1.fref[i]? = (xfinal P XWorld.init h).fref[i]?)
+    ∧ (∀ c : XOp,
+        (∀ i ∈ xhandlesOf c, i < (xfinal P XWorld.init h).base.specs.length) →
+        (∀ i ∈ xformsOf (xfinal P XWorld.init h).fref c, i < (xfinal P XWorld.init h).forms.length) →
+        (xstep P (xstep P (xfinal P XWorld.init h) op).1 c).2 = (xstep P (xfinal P XWorld.init h) c).2) := by
+  have hi := (xrun_sim P h XWorld.init xinv_init).2.2
+  have ss := xstep_sim P _ op hi
+  obtain ⟨⟨nf, hnf⟩, ⟨ns, hns⟩, ⟨nr, hnr⟩⟩ := xpstep_append P (xabs (xfinal P XWorld.init h)) op hne
+  have e1 : (xabs (xstep P (xfinal P XWorld.init h) op).1).specs = (xabs (xfinal P XWorld.init h)).specs ++ ns := by
+    rw [ss.env, hns]
+  have e2 : (xstep P (xfinal P XWorld.init h) op).1.fref = (xfinal P XWorld.init h).fref ++ nr := by
+    have : (xabs (xstep P (xfinal P XWorld.init h) op).1).fref = (xabs (xfinal P XWorld.init h)).fref ++ nr := by
+      rw [ss.env, hnr]
+    exact this
+  have e3 : (xstep P (xfinal P XWorld.init h) op).1.forms = (xfinal P XWorld.init h).forms ++ nf := by
+    have : (xabs (xstep P (xfinal P XWorld.init h) op).1).forms = (xabs (xfinal P XWorld.init h)).forms ++ nf := by
+      rw [ss.env, hnf]
+    exact this
+  have hlen : (xfinal P XWorld.init h).fref.length = (xfinal P XWorld.init h).base.specs.length := by
+    have := (xfinal_wf P h).len
+    simpa [xabs, absW] using this
+  refine ⟨fun i hlt => ?_, fun i hlt => ?_, fun c hc hfm => ?_⟩
+  · rw [e1]
+    exact getElem?_append_of_lt _ _ (by simpa [xabs, absW] using hlt)
+  · rw [e2]
+    exact getElem?_append_of_lt _ _ hlt
+  · rw [(xstep_sim P _ c ss.inv).out, (xstep_sim P _ c hi).out]
+    symm
+    apply xpstep_out_congr
+    · intro i hic
+      have b1 := hc i hic
+      have b2 : i < (xfinal P XWorld.init h).fref.length := by rw [hlen]; exact b1
+      refine ⟨?_, ?_⟩
+      · rw [e1]; exact (getElem?_append_of_lt _ _ (by simpa [xabs, absW] using b1)).symm
+      · show (xfinal P XWorld.init h).fref[i]? = (xstep P (xfinal P XWorld.init h) op).1.fref[i]?
+        rw [e2]; exact (getElem?_append_of_lt _ _ b2).symm
+    · intro i hif
+      show (xfinal P XWorld.init h).forms[i]? = (xstep P (xfinal P XWorld.init h) op).1.forms[i]?
+      rw [e3]; exact (getElem?_append_of_lt _ _ (hfm i hif)).symm
+
+/-- C18.1x  The model's bookkeeping of aliasing is consistent in every reachable world: every spec handed
+out holds one of the formula objects, and the formula the spec record carries IS the current content
+of that object (so writing an edit through to the records is what sharing the object does). -/
+theorem x_alias_consistent (h : List XOp) :
+    (xfinal P XWorld.init h).fref.length = (xfinal P XWorld.init h).base.specs.length
+    ∧ ∀ (i : Nat) (s : Spec E) (r : Nat), (xfinal P XWorld.init h).base.specs[i]? = some s →
+        (xfinal P XWorld.init h).fref[i]? = some r → (xfinal P XWorld.init h).forms[r]? = some s.formula := by
+  have hw := xfinal_wf P h
+  refine ⟨by simpa [xabs, absW] using hw.len, ?_⟩
+  intro i s r hs hr
+  have := hw.cur i (absS (xfinal P XWorld.init h).base s) r (by simp [xabs, absW, hs]) hr
+  exact this
+
+/-- C18.2x  Repetition / interleaving: an operation `c` on objects that exist after `h1` gives the
+identical outcome after ANY further operations `h2` that are not the caller's own edits — further
+builds of other formulas, reuses of any spec on any data, updates, subsets, operations that raise. -/
+theorem x_replay_stable (h2 : List XOp) : ∀ (h1 : List XOp) (_ : ∀ o ∈ h2, o.isEdit = false) (c : XOp)
+    (_ : ∀ i ∈ xhandlesOf c, i < (xfinal P XWorld.init h1).base.specs.length)
+    (_ : ∀ i ∈ xformsOf (xfinal P XWorld.init h1).fref c, i < (xfinal P XWorld.init h1).forms.length),
+    (xstep P (xfinal P XWorld.init (h1 ++ h2)) c).2 = (xstep P (xfinal P XWorld.init h1) c).2 := by
+  induction h2 with
+  | nil => intro h1 _ c _ _; simp
+  | cons o rest ih =>
+    intro h1 hne c hc hf
+    have hi := (xrun_sim P h1 XWorld.init xinv_init).2.2
+    have ho : o.isEdit = false := hne o (by simp)
+    obtain ⟨⟨nf, hnf⟩, ⟨ns, hns⟩, ⟨nr, hnr⟩⟩ := xstep_append P _ hi o ho
+    have hfin : xfinal P XWorld.init (h1 ++ [o]) = (xstep P (xfinal P XWorld.init h1) o).1 := by
+      rw [xfinal_append]; rfl
+    have hlen : (xfinal P XWorld.init h1).fref.length = (xfinal P XWorld.init h1).base.specs.length :=
+      (x_alias_consistent P h1).1
+    have e : h1 ++ o :: rest = (h1 ++ [o]) ++ rest := by simp
+    rw [e, ih (h1 ++ [o]) (fun o' ho' => hne o' (by simp [ho'])) c ?_ ?_, hfin]
+    · exact (x_inputs_unchanged P h1 o ho).2.2 c hc hf
+    · intro i hic
+      rw [hfin]
+      have h1' := hc i hic
+      have : (absW (xstep P (xfinal P XWorld.init h1) o).1.base).length
+          = (absW (xfinal P XWorld.init h1).base).length + ns.length := by rw [hns]; simp
+      simp only [absW_length] at this
+      omega
+    · intro i hif
+      rw [hfin] at hif ⊢
+      rw [hnr, xformsOf_append _ _ c (fun j hj => by rw [hlen]; exact hc j hj)] at hif
+      have := hf i hif
+      rw [hnf, List.length_append]; omega
+
+/-- C18.2x  in particular: the same operation performed again later gives the identical outcome -/
+theorem x_repeat_identical (h1 h2 : List XOp) (c : XOp) (hce : c.isEdit = false)
+    (hne : ∀ o ∈ h2, o.isEdit = false)
+    (hc : ∀ i ∈ xhandlesOf c, i < (xfinal P XWorld.init h1).base.specs.length)
+    (hf : ∀ i ∈ xformsOf (xfinal P XWorld.init h1).fref c, i < (xfinal P XWorld.init h1).forms.length) :
+    (xstep P (xfinal P XWorld.init (h1 ++ c :: h2)) c).2 = (xstep P (xfinal P XWorld.init h1) c).2 :=
+  x_replay_stable P (c :: h2) h1 (fun o ho => by
+    rcases List.mem_cons.mp ho with h | h
+    · subst h; exact hce
+    · exact hne o h) c hc hf
+
+/-- C18.1x  Several formulas side by side: the caller's edit of formula object `fid` does not change the
+outcome of any operation that neither reads that object nor names a spec holding it. -/
+theorem unrelated_edit_does_not_interfere (h : List XOp) (fid : Nat) (e : Edit) (c : XOp)
+    (h1 : ∀ i ∈ xformsOf (xfinal P XWorld.init h).fref c, i ≠ fid)
+    (h2 : ∀ i ∈ xhandlesOf c, (xfinal P XWorld.init h).fref[i]? ≠ some fid) :
+    (xstep P (xstep P (xfinal P XWorld.init h) (.edit fid e)).1 c).2 = (xstep P (xfinal P XWorld.init h) c).2 := by
+  have hi := (xrun_sim P h XWorld.init xinv_init).2.2
+  have ss := xstep_sim P _ (.edit fid e) hi
+  rw [(xstep_sim P _ c ss.inv).out, (xstep_sim P _ c hi).out, ss.env]
+  exact edit_noninterference P (xabs (xfinal P XWorld.init h)) fid e c h1 h2
+
+/-- C18.1x  An operation that RAISES — at any point: unknown term, inconsistent joint specs, a factor
+that cannot be evaluated, nulls under `na_action='raise'`, a recorded structure the data do not fit
+(after cells of the prepared copies have already been written), an index error of an edit — leaves
+every formula object, every spec value and every reference exactly as it was … -/
+theorem failed_operation_changes_nothing (h : List XOp) (op : XOp) (x : XErr)
+    (herr : (xstep P (xfinal P XWorld.init h) op).2 = .error x) :
+    xabs (xstep P (xfinal P XWorld.init h) op).1 = xabs (xfinal P XWorld.init h) := by
+  have hi := (xrun_sim P h XWorld.init xinv_init).2.2
+  have ss := xstep_sim P _ op hi
+  rw [ss.env]
+  exact xpstep_error_env P _ op x (by rw [← ss.out]; exact herr)
+
+/-- … hence "fault, then reuse": after an operation that raised half-way, every further operation
+gives exactly the outcome it would have given had the failing operation never been attempted. -/
+theorem fault_then_reuse (h : List XOp) (op c : XOp) (x : XErr)
+    (herr : (xstep P (xfinal P XWorld.init h) op).2 = .error x) :
+    (xstep P (xstep P (xfinal P XWorld.init h) op).1 c).2 = (xstep P (xfinal P XWorld.init h) c).2 := by
+  have hi := (xrun_sim P h XWorld.init xinv_init).2.2
+  have ss := xstep_sim P _ op hi
+  rw [(xstep_sim P _ c ss.inv).out, (xstep_sim P _ c hi).out, failed_operation_changes_nothing P h op x herr]
+
+/-- C18.1x  What the caller's edit of formula object `fid` does to the specs obtained so far: a spec
+that holds that object now has the edited formula; NOTHING else changes — not the formula of a spec
+holding another object, and no spec's configuration, recorded structure or state dictionaries. -/
+theorem edit_reaches_exactly_the_aliases (h : List XOp) (fid : Nat) (e : Edit) (f f' : Formula)
+    (hf : (xfinal P XWorld.init h).forms[fid]? = some f) (he : applyEdit f e = .ok f') (i : Nat) :
+    (xabs (xstep P (xfinal P XWorld.init h) (.edit fid e)).1).specs[i]? =
+      match (xabs (xfinal P XWorld.init h)).specs[i]?, (xfinal P XWorld.init h).fref[i]? with
+      | some s, some r => some (if r = fid then { s with formula := f' } else s)
+      | some s, none => some s
+      | none, _ => none := by
+  have hi := (xrun_sim P h XWorld.init xinv_init).2.2
+  rw [(xstep_sim P _ (.edit fid e) hi).env]
+  have : (xabs (xfinal P XWorld.init h)).forms[fid]? = some f := hf
+  simp only [xpstep, peditForm, this, he]
+  exact prewriteAll_getElem _ _ fid f' i
+
+/-- C18.3x  What the engine runs — extended histories with rank reduction computed by the model — does not
+depend on the iteration order of any plain `set` on the way (hash seed): for EVERY admissible set order
+the store model gives the outcomes of the value semantics under insertion order. -/
+theorem x_history_hash_seed_independent (σ : FormulaicVerif.Model.HeapScope.SetOrder) (hσ : σ.Valid)
+    (kind : String → Data → FormulaicVerif.Model.HeapScope.FKind) (h : List XOp) :
+    xrun (FormulaicVerif.Model.HeapScope.withScope P σ kind) XWorld.init h
+      = xprun (FormulaicVerif.Model.HeapScope.withScope P .insertion kind) XEnv.init h := by
+  have : FormulaicVerif.Model.HeapScope.withScope P σ kind
+      = FormulaicVerif.Model.HeapScope.withScope P .insertion kind := by
+    unfold FormulaicVerif.Model.HeapScope.withScope
+    rw [scopedOf_hash_seed_independent σ hσ]
+  rw [this]
+  exact x_history_independent _ h
+
+/-- C18.1x  `SimpleFormula._reorder` as modelled is a STABLE sort by degree: a permutation of the terms, in
+non-decreasing degree, and the identity on a formula that already is in degree order (so neither the
+re-sort after `insert` / `__setitem__` nor its absence after `__delitem__` depends on anything but the
+terms and their order: no hash, no history). -/
+theorem reorder_is_stable_sort (f : Formula) :
+    (reorder f).Perm f ∧ FormulaicVerif.Proofs.C18Edit.Sorted (reorder f)
+    ∧ (FormulaicVerif.Proofs.C18Edit.Sorted f → reorder f = f) :=
+  ⟨FormulaicVerif.Proofs.C18Edit.reorder_perm f, FormulaicVerif.Proofs.C18Edit.reorder_sorted f,
+    FormulaicVerif.Proofs.C18Edit.reorder_of_sorted f⟩
+
+/-- C18.1x  In every history whose `Formula(...)` objects start in degree order (the parser emits them
+so), EVERY formula object is in degree order at every moment, whatever the caller edits: the term
+order a later build sees is a function of the terms present and the order they were put in. -/
+theorem formula_objects_stay_in_degree_order (h : List XOp)
+    (hs : ∀ op ∈ h, ∀ f, op = .formula f → FormulaicVerif.Proofs.C18Edit.Sorted f) :
+    ∀ f ∈ (xfinal P XWorld.init h).forms, FormulaicVerif.Proofs.C18Edit.Sorted f :=
+  FormulaicVerif.Proofs.C18Edit.xfinal_forms_sorted P h XWorld.init (by intro f hf; simp [XWorld.init] at hf) hs
+
+/-- the sequence protocol as modelled, on `1 + center(x) + C(a)`: `insert(0, z)` re-sorts by degree
+(the intercept stays first), `append(x:z)`, `F[1] = b`, `del F[0]` (no re-sort), `del F[10]` -/
+example : applyEdit [[], ["center(x)"], ["C(a)"]] (.insert 0 ["z"]) = .ok [[], ["z"], ["center(x)"], ["C(a)"]]
+    ∧ applyEdit [[], ["z"], ["center(x)"], ["C(a)"]] (.append ["x", "z"])
+        = .ok [[], ["z"], ["center(x)"], ["C(a)"], ["x", "z"]]
+    ∧ applyEdit [[], ["z"], ["center(x)"]] (.set 1 ["b"]) = .ok [[], ["b"], ["center(x)"]]
+    ∧ applyEdit [[], ["b"], ["center(x)"]] (.del 0) = .ok [["b"], ["center(x)"]]
+    ∧ applyEdit [["b"], ["center(x)"]] (.insert (-1) ["x", "z", "a"]) = .ok [["b"], ["center(x)"], ["x", "z", "a"]]
+    ∧ applyEdit [["b"], ["center(x)"]] (.del 10) = .error .indexError
+    ∧ applyEdit [["b"], ["center(x)"]] (.del (-2)) = .ok [["center(x)"]] := by decide
+
+/-- non-vacuity: `F = Formula('center(x)'); s = ModelSpec(formula=F); s.get_model_matrix(d1);
+F.append(z); s.get_model_matrix(d2)` — the spec sees the edit (second reuse has two terms), and the
+failing `del F[5]` in between changes nothing -/
+example : (xrun P₀ XWorld.init [.formula [["center(x)"]], .newSpec 0 ⟨true, .drop⟩, .call [0] none 1,
+      .edit 0 (.append ["z"]), .edit 0 (.del 5), .call [0] none 2]).map
+        (fun o => o.toOption.map (List.map (·.terms)))
+    = [some [], some [], some [[["center(x)"]]], some [], none, some [[["center(x)"], ["z"]]]] := by decide
+
+end extended
+
+/-! ## The layout of state the model assumes is the layout of the live package
+
+`Gen/SpecState.lean` is regenerated from the installed package on every run (dataclass fields of
+`ModelSpec`, members of `NAAction`, the methods of the sequence protocol `SimpleFormula` defines, and
+four probed aliasing facts).  If a field holding a new mutable container is added to `ModelSpec`, a
+spec stops holding the caller's formula object, `update()` stops sharing the state dictionaries or
+materialization stops copying them, these statements change and no longer check. -/
+
+section layout
+open FormulaicVerif.Gen FormulaicVerif.Model.HeapX
+
+/-- every per-instance mutable container of a `ModelSpec` (a dataclass field with a default factory) is
+one of the two dictionaries the store model keeps in reference cells; every other field is carried
+by value or constant; the dataclass is frozen; `NAAction` has the three members of the model -/
+theorem state_layout_as_modelled :
+    (SpecState.fields.filter fun p => p.2.1 = "factory").map (·.1) = modelledDictFields
+    ∧ (SpecState.fields.filter fun p => p.2.1 = "factory").map (·.2.2) = ["dict", "dict"]
+    ∧ (∀ n ∈ SpecState.fields.map (·.1), n ∈ modelledValueFields ++ passThroughFields ++ modelledDictFields)
+    ∧ SpecState.frozen = true
+    ∧ SpecState.naActions = [NAAction.drop, .raise, .ignore].map naPyName := by decide
+
+/-- the sharing the store model builds in: a spec holds the caller's formula OBJECT (so do its
+`update()` copies and the specs attached to produced matrices), `update()` copies share both state
+dictionaries, materialization works on copies of them (`Mode.copy`) -/
+theorem aliasing_as_modelled :
+    SpecState.specHoldsFormulaObject = true ∧ SpecState.resultHoldsFormulaObject = true
+    ∧ SpecState.updateSharesState = true ∧ SpecState.prepareCopiesState = true := by decide
+
+/-- the edits of the model are the mutators `SimpleFormula` implements; every other mutating method
+of the sequence protocol is the unchanged `collections.abc` mixin built on them -/
+theorem sequence_protocol_as_modelled :
+    SpecState.formulaOwnMutators = editPrimitives ∧ SpecState.formulaOtherMutators = []
+    ∧ "append" ∈ SpecState.formulaMixinMutators := by decide
+
+end layout
 
 end FormulaicVerif.Props.C18
